@@ -260,10 +260,10 @@ func unmarshalTuple(dec *msgpack.Decoder, etys []cty.Type, path cty.Path) (cty.V
 	switch {
 	case length < 0:
 		return cty.NullVal(cty.Tuple(etys)), nil
-	case length == 0:
-		return cty.TupleVal(nil), nil
 	case length != len(etys):
 		return cty.DynamicVal, path.NewErrorf("a tuple of length %d is required", len(etys))
+	case length == 0:
+		return cty.TupleVal(nil), nil
 	}
 
 	vals := make([]cty.Value, 0, preallocLen(length))
@@ -294,11 +294,11 @@ func unmarshalObject(dec *msgpack.Decoder, atys map[string]cty.Type, path cty.Pa
 	switch {
 	case length < 0:
 		return cty.NullVal(cty.Object(atys)), nil
-	case length == 0:
-		return cty.ObjectVal(nil), nil
 	case length != len(atys):
 		return cty.DynamicVal, path.NewErrorf("an object with %d attributes is required (%d given)",
 			len(atys), length)
+	case length == 0:
+		return cty.ObjectVal(nil), nil
 	}
 
 	vals := make(map[string]cty.Value, preallocLen(length))
